@@ -6,7 +6,7 @@ from harness.common import sim
 
 PROP = "C13"
 LEAN_MODULES = ["LunaVerif.Props.C13", "LunaVerif.Lemmas.C13Host", "LunaVerif.Lemmas.C13Write", "LunaVerif.Lemmas.C13Fin",
-                "LunaVerif.Props.C13Stream", "LunaVerif.Props.C13Handshake"]
+                "LunaVerif.Props.C13Stream", "LunaVerif.Props.C13Handshake", "LunaVerif.Props.C13Space"]
 DRIVER = "Driver/C13.lean"
 REQUIRED_THEOREMS = ["ack_implies_delivered_or_repeat_partial", "nak_iff_cannot_take_partial", "fifo_inputs_legal",
                      "overflow_sticky", "overflowed_packet_discarded", "overflowed_packet_naked",
@@ -15,7 +15,8 @@ REQUIRED_THEOREMS = ["ack_implies_delivered_or_repeat_partial", "nak_iff_cannot_
                      # history level (Props/C13Stream.lean and its layers)
                      "detRel_step", "winv_step", "sim_step", "out_stream_exact", "out_stream_prefix",
                      "out_stream_complete_when_drained", "last_iff_short_packet_end", "first_iff_transfer_start",
-                     "nak_iff_cannot_take", "ack_implies_delivered_or_repeat", "out_toggle_tracks_observer"]
+                     "nak_iff_cannot_take", "ack_implies_delivered_or_repeat", "out_toggle_tracks_observer",
+                     "ack_when_space", "ping_ack_promise"]
 RULE = ("cases = (max_packet_size, buffer_size) x consumer pattern x response delay x seed; a scripted host issues OUT "
         "transactions (sizes 0..max, biased to max-size packets followed by a ZLP), retries NAKed packets, repeats "
         "ACKed packets with the old toggle (lost handshake), sends CRC-corrupted packets, PINGs, traffic to other "
@@ -30,13 +31,8 @@ ASSUMPTIONS = ["LegalHost (lean/LunaVerif/Lemmas/C13Host.lean, decidable accepto
                "rx_ready_for_response follows rx_complete by >= 1 cycle (USBInterpacketTimer: 1 / 2 / 10 cycles)",
                "tokenizer fields and rx_pid_toggle are stable from the data packet until the response request",
                "every transaction starts with a token addressed to the device (tokenizer.new_token strobe) before its data"]
-PARTIAL = ("the history-level theorems (out_stream_exact, nak_iff_cannot_take, ack_implies_delivered_or_repeat, "
-           "last_iff_short_packet_end, first_iff_transfer_start) are proved for every LegalHost history of the cycle-level "
-           "model of the repaired endpoint; 'cannot take a whole packet' is proved in the form 'a byte of the packet was "
-           "presented while the FIFO was full' -- the arithmetic corollary (space_available >= packet length at the token "
-           "=> the packet is ACKed; in particular the promise of a PING ACK) is not proved; out_stream_exact speaks about "
-           "histories of complete transactions and states the not yet consumed part through C18's queue relation "
-           "(equality of the consumer's stream itself once stream.valid is low)")
+PARTIAL = ""     # all five theorems of the design entry are proved for every LegalHost history (see notes/C13.md for the
+#                  exact formulations: complete transactions; FIFO remainder through C18's queue relation)
 KNOWN_SIGS = {}
 
 EP = 2
